@@ -1,6 +1,7 @@
 import Model.Access
 import Model.Types
 import Model.Inst
+import Spec.Access
 import Generated.C07Access
 import Drivers.Common
 /-! `vm_c07`: line protocol over `Model.Access` / `Model.Types` / `Model.Inst` with the regenerated tables.
@@ -8,6 +9,7 @@ import Drivers.Common
   acc  <H> <path> <recv> <mod> <ctx> <lex> <obj> <decl>     → allowed | denied | stuck
   exec <H> <site…> <read|write1|write0|call|unset>          → <ok|denied|stuck> cell=<n> calls=<n>
                                                                (start: cell 1, calls 0; a write stores 2, unset 0)
+  spec <H> <mod> <lex> <decl>                               → 1 | 0 | stuck          (Spec.Access.allowedB)
   isa  <H> <c> <t>                                           → 1 | 0 | stuck
   ty   <H> <val> <ty tokens…>                                → 1 | 0 | stuck          (Types.Is)
   bd   <H> <boundary> <val> <ty tokens…>                     → 1 | 0 | stuck          (admitted at the boundary)
@@ -145,13 +147,15 @@ def parseBoundary : String → Option Boundary
   | "propStore" => some .propStore | "dynPropStore" => some .dynPropStore | "idxStore" => some .idxStore
   | "staticStore" => some .staticStore | "fnParam" => some .fnParam | "methParam" => some .methParam
   | "staticParam" => some .staticParam | "ctorParam" => some .ctorParam | "fnReturn" => some .fnReturn
-  | "methReturn" => some .methReturn | _ => none
+  | "methReturn" => some .methReturn | "closureParam" => some .closureParam
+  | "closureReturn" => some .closureReturn | "promotedParam" => some .promotedParam | _ => none
 
 def showBoundary : Boundary → String
   | .propStore => "propStore" | .dynPropStore => "dynPropStore" | .idxStore => "idxStore"
   | .staticStore => "staticStore" | .fnParam => "fnParam" | .methParam => "methParam"
   | .staticParam => "staticParam" | .ctorParam => "ctorParam" | .fnReturn => "fnReturn"
-  | .methReturn => "methReturn"
+  | .methReturn => "methReturn" | .closureParam => "closureParam" | .closureReturn => "closureReturn"
+  | .promotedParam => "promotedParam"
 
 def bit (b : Bool) : String := if b then "1" else "0"
 
@@ -212,6 +216,11 @@ def handle (line : String) : String :=
         let rs := match r with | .ok _ => "ok" | .denied => "denied" | .stuck => "stuck"
         s!"{rs} cell={σ'.cell 0} calls={σ'.calls 0}"
     | _, _, _ => "bad-op"
+  | ["spec", h, m, x, d] =>
+    match parseHier h, parseMod m, optName x, d.toNat? with
+    | some H, some m, some x, some d =>
+      (match Spec.Access.allowedB H m x d with | none => "stuck" | some b => bit b)
+    | _, _, _, _ => "bad-op"
   | ["isa", h, c, t] =>
     match parseHier h, c.toNat?, t.toNat? with
     | some H, some c, some t =>
